@@ -296,11 +296,35 @@ func (g *G) jsonDoc(depth int, sb *strings.Builder) {
 			sb.WriteString(strconv.FormatFloat(f, 'E', g.intn(20), 64))
 		}
 	case 6:
+		if g.chance(0.4) {
+			// a long run of digits with a fraction and/or an exponent: float syntax whose integer-looking
+			// prefix is beyond 64 bits
+			g.count("json.longnum")
+			if g.chance(0.4) {
+				sb.WriteByte('-')
+			}
+			sb.WriteByte(byte('1' + g.intn(9)))
+			for k := 10 + g.intn(30); k > 0; k-- {
+				sb.WriteByte(byte('0' + g.intn(10)))
+			}
+			if g.chance(0.5) {
+				sb.WriteByte('.')
+				for k := 1 + g.intn(5); k > 0; k-- {
+					sb.WriteByte(byte('0' + g.intn(10)))
+				}
+			}
+			if g.chance(0.6) {
+				sb.WriteString([]string{"e", "E", "e+", "E-", "e-"}[g.intn(5)])
+				sb.WriteString(strconv.Itoa(g.intn(200)))
+			}
+			break
+		}
 		g.count("json.numtext")
 		sb.WriteString([]string{"0", "-0", "0.0", "-0.0", "1e5", "1E+5", "1e-5", "0.1", "123456789012345678901234567890", "18446744073709551615", "18446744073709551616",
 			"9223372036854775807", "9223372036854775808", "-9223372036854775808", "-9223372036854775809", "1e308", "1e309", "1.7976931348623157e308", "1.7976931348623159e308",
 			"4.9e-324", "2.4e-324", "2.5e-324", "1e-400", "0e999999999", "1.0000000000000000000000000000000000001", "9007199254740993", "9007199254740993.0", "0.000001", "1e21", "1e-7",
-			"2.2250738585072011e-308", "5e-324", "1.00000000000000011102230246251565404236316680908203125", "1.00000000000000011102230246251565404236316680908203124"}[g.intn(34)])
+			"2.2250738585072011e-308", "5e-324", "1.00000000000000011102230246251565404236316680908203125", "1.00000000000000011102230246251565404236316680908203124",
+			"123456789012345678901.5", "700368744177663000000E+13", "18446744073709551616e0", "18446744073709551616.0", "-9223372036854775809.0", "99999999999999999999e-5"}[g.intn(40)])
 	case 7:
 		g.count("json.array")
 		sb.WriteByte('[')
